@@ -16,7 +16,7 @@ def run(ctx, rep):
     rep.rule("A11", "syntactic agreement: bounded exploration of the product of the LR automata of the current grammar and of spec/aidl_ref.lalrpop (both built by lalrpop's own front-end), with and without recovery alternatives")
     rep.rule("S1", "every recovery alternative converts the recovered error, pushes the diagnostic and yields Ok(None)")
     rep.rule("S2-S4", "from_parse_error tabulated over the ParseError variants: an Error for InvalidToken / UnrecognizedEOF / UnrecognizedToken / ExtraToken, None only for User; no user action produces a User error; from_error_recovery keeps kind")
-    rep.rule("S5", "add_content: Err branch pushes the converted error and stores no tree; a tree-less Ok result can only come from the recovery alternative of OptItem")
+    rep.rule("S5", "add_content: every path of the Err branch converts the error, pushes it and stores no tree; a tree-less Ok result can only come from the recovery alternative of OptItem")
     rep.rule("S6", "append-only: every call applied to a Vec<Diagnostic> in code reachable from validation is push / sort_by_key / sort_by / clone / iteration; results keep `diagnostics` from the stored result")
     rep.rule("N1", "every stored user identifier originates from an IDENT token (wiring), and IDENT never matches a keyword (A10.iv)")
     lexical.rules(ctx, rep, "C03", {"classes", "priority", "keywords", "finite", "tokenizer"})
@@ -73,14 +73,19 @@ def run(ctx, rep):
             n_err += 1
             if conv == ["Some"]:
                 okerr = okerr and len(pushes) == 1 and astf == ("adt", "std::option::Option", "None", ())
-            else:
+            elif conv == ["None"]:
                 okerr = okerr and astf == ("adt", "std::option::Option", "None", ())
+            else:
+                # a failure path on which the error was not even converted (e.g. only "when nothing was reported yet"):
+                # the file would be tree-less with whatever the recovery actions happened to push - possibly no Error
+                okerr = False
         else:
             okerr = okerr and isinstance(astf, tuple) and astf[0] == "field" and astf[2] == "Ok.0"
     rep.check(okerr and n_err >= 1, "S5", "C03|S5|add_content", cfg.where(facts.fn(P + "add_content")),
-              "add_content: a parse failure stores no tree and appends the converted Error; a successful parse stores exactly what the parser returned")
+              "add_content: a parse failure stores no tree and on EVERY failure path converts the error with from_parse_error and appends it (unconditionally - not only when nothing was reported before); a successful parse stores exactly what the parser returned")
     # None of Option<ast::Aidl> from a successful parse: only the OptAidl action, only when OptItem is None; None of Option<Item>: only the recovery alternative (wiring rules)
     append_only_rule(ctx, rep, "C03")
+    c12.inherit_h7(ctx, rep, "C03")   # "which validation never drops": also not after validation::validate returned
     rep.assumptions += ["TB-2 lalrpop: generated tables == grammar; recovery reports the errors it swallowed", "TB-1 rustc MIR", "TB-4 tabulator", "A11 is bounded: equality of the two languages up to N tokens"]
     rep.not_decided.append("language equality beyond the token bound of A11")
 
